@@ -1218,8 +1218,8 @@ int main(int argc, char** argv)
                      list.push_back(c);
                   }
                }
-            // names / labels of the longest legal length (8191 bytes fit the 8192-byte token buffers)
-            for(size_t len : {255, 4096, 8190, 8191})
+            // names / labels up to the longest length the LP format allows (255 characters)
+            for(size_t len : {16, 255})
             {
                std::string nm(len, 'q');
                Case c;
@@ -1236,7 +1236,7 @@ int main(int argc, char** argv)
                list.push_back(r);
             }
             // MPS: names up to the longest line that fits the 256-byte line buffer
-            for(size_t len : {8, 100, 200, 240})
+            for(size_t len : {8, 100, 200, 230})
             {
                Case c;
                c.fmt = MPS; c.mode = mode; c.gz = gz; c.expValid = 1; c.cpu = TOKCPU;
@@ -1271,6 +1271,39 @@ int main(int argc, char** argv)
          }
       Family f;
       f.name = "valid variants (long lines, longest legal names) with known optimum";
+      f.N = list.size();
+      f.gen = [](uint64_t idx) { return list[idx]; };
+      fams.push_back(f);
+   }
+   {
+      // names, row labels and numbers whose length brackets the internal buffer sizes (1024-byte name store, 8192-byte token
+      // buffers), at every position of the valid LP file; no expectation about the result beyond the common oracle
+      static std::vector<Case> list;
+      list.clear();
+      std::vector<size_t> lens = {1022, 1023, 1024, 1025, 8190, 8191, 8192, 8193, 16384};
+      struct Pos { const char* find; int kind; };   // kind 0: replace a name, 1: replace a number
+      std::vector<Pos> pos = { {" x +", 0}, {"+ 3 z\n", 0}, {"c1:", 0}, {" x - y", 0}, {"<= x <=", 0}, {" z free", 0}, {" y\nEnd", 0},
+         {"3 y", 1}, {">= 2", 1}, {"= 3\n", 1}, {"<= 4", 1}, {" 0 <=", 1}
+      };
+      for(int mode = 0; mode < 2; ++mode)
+         for(size_t len : lens)
+            for(auto& ps : pos)
+            {
+               Case c;
+               c.fmt = LP; c.mode = mode; c.cpu = TOKCPU;
+               c.data = V_LP;
+               size_t p = c.data.find(ps.find);
+               if(p == std::string::npos) continue;
+               // the first alphanumeric character of the pattern is the token that is replaced
+               size_t q = p;
+               while(!isalnum((unsigned char)c.data[q])) ++q;
+               size_t e = q;
+               while(isalnum((unsigned char)c.data[e])) ++e;
+               c.data.replace(q, e - q, std::string(len, ps.kind ? '8' : 'q'));
+               list.push_back(c);
+            }
+      Family f;
+      f.name = "LP names / labels / numbers of 1022..16384 characters at 12 positions x 2 modes";
       f.N = list.size();
       f.gen = [](uint64_t idx) { return list[idx]; };
       fams.push_back(f);
